@@ -793,11 +793,50 @@ func (k *c16Key) c16Step(c *Ctx, r *Rng, path string, t *c16Triple) (kind, opera
 	return
 }
 
+// c16ScalarSweep forces every scalar class through both key paths (the random chains only sample them).
+func c16ScalarSweep(c *Ctx, r *Rng, k *c16Key) {
+	nHex := hexNat(k.N)
+	big1 := big.NewInt(1)
+	scalars := []*big.Int{
+		big.NewInt(0), big1, big.NewInt(-1),
+		new(big.Int).Neg(new(big.Int).Add(k.N, r.BigBelow(k.N))),
+		new(big.Int).Add(k.N, r.BigBelow(k.N)),
+		new(big.Int).Add(k.NN, r.BigBelow(k.NN)),
+	}
+	for _, path := range []string{"pk", "sk"} {
+		o := k.ops(path)
+		for _, s := range scalars {
+			t := k.freshTriple(path, r)
+			si := c16Int(s)
+			var out c16Triple
+			res := safely(func() string {
+				var err error
+				if out.ct, err = o.CiphertextScalarOp(t.ct, si); err != nil {
+					return c16Err(err)
+				}
+				if out.pt, err = o.PlaintextScalarOp(t.pt, si); err != nil {
+					return c16Err(err)
+				}
+				if out.nc, err = o.NonceScalarOp(t.nc, si); err != nil {
+					return c16Err(err)
+				}
+				return "ok:" + hexList(ctBig(out.ct), ptBig(out.pt), ncBig(out.nc))
+			})
+			c.Emit(fmt.Sprintf("hom %s %s scal %s %s", path, nHex, t.String(), hexInt(s)), res)
+			c.Count("hom.scal.sweep." + path)
+			if strings.HasPrefix(res, "ok:") && s.Sign() < 0 {
+				k.emitDecOpen(c, out.ct, ptBig(out.pt), ncBig(out.nc))
+			}
+		}
+	}
+}
+
 func c16Chains(c *Ctx, r *Rng, k *c16Key) {
 	chains, steps := 3, 5
 	if c.Thorough() {
 		chains, steps = 12, 10
 	}
+	c16ScalarSweep(c, r, k)
 	nHex := hexNat(k.N)
 	for ch := 0; ch < chains; ch++ {
 		path := []string{"pk", "sk"}[ch%2]
